@@ -299,3 +299,39 @@ theorem sender_data (v : List (Bool × Bytes)) (es : List Ev) (s : St) (h : run 
     | inr h => exact absurd (hi.fresh id h) hph
 
 end Fsm.S
+
+namespace Fsm.S
+
+theorem step_view {s s' : St} {e : Ev} (h : step s e = some s') : s'.view = s.view := by
+  cases e <;> simp only [step] at h
+  · split at h; · cases h
+    split at h
+    · cases h; rfl
+    · cases h
+  · split at h; · cases h
+    split at h
+    · cases h; rfl
+    · cases h
+  · split at h; · cases h
+    split at h <;> cases h <;> rfl
+  · split at h <;> first | (cases h; rfl) | cases h
+  · split at h
+    · split at h
+      · cases h; rfl
+      · cases h
+    all_goals cases h
+  · split at h
+    · split at h
+      · cases h; rfl
+      · cases h
+    all_goals cases h
+
+theorem run_view : ∀ (s : St) (es : List Ev) (s' : St), run s es = some s' → s'.view = s.view
+  | s, [], s', h => by simp [run] at h; subst h; rfl
+  | s, e :: es, s', h => by
+    simp only [run] at h
+    cases hs : step s e with
+    | none => rw [hs] at h; cases h
+    | some s1 => rw [hs] at h; rw [run_view s1 es s' h, step_view hs]
+
+end Fsm.S
